@@ -18,7 +18,54 @@ pub struct C13P;
 pub static C13: C13P = C13P;
 
 const MOD_NAMES: [&str; 3] = ["a", "b", "pkgs"];
-const FN_NAMES: [&str; 3] = ["f", "g", "pkg_h"];
+/// `fm` is declared as a filtermap (`filtermap fm() { accept <tag> }`), the others as functions
+const FN_NAMES: [&str; 4] = ["f", "g", "pkg_h", "fm"];
+
+fn is_fm(name: &str) -> bool {
+    name == "fm"
+}
+
+/// the expression that calls the function-like item at `path` and yields its tag
+fn call_text(path: &[String]) -> String {
+    let p = path.join(".");
+    if is_fm(path.last().map(|s| s.as_str()).unwrap_or("")) { format!("(match {p}() {{ Accept(zv) => zv, Reject(zr) => -1 }})") } else { format!("{p}()") }
+}
+
+/// Imports of one scope as source text.  Style 0: one statement per path; 1: one statement per first
+/// segment, paths merged into nested lists (`import a.{b.{f, g}, K};`); 2: one statement with a top-level
+/// list (`import {a.b.f, c.K};`); 3: like 1 but every leaf wrapped in a list of its own where a list is allowed.
+fn import_text(paths: &[&Vec<String>], style: u8) -> String {
+    fn entries(paths: Vec<&[String]>, wrap: bool) -> Vec<String> {
+        let mut firsts: Vec<&String> = Vec::new();
+        for p in &paths {
+            if !firsts.contains(&&p[0]) {
+                firsts.push(&p[0]);
+            }
+        }
+        let mut out = Vec::new();
+        for f in firsts {
+            let tails: Vec<&[String]> = paths.iter().filter(|p| &p[0] == f).map(|p| &p[1..]).collect();
+            if tails.iter().any(|t| t.is_empty()) {
+                out.push(f.clone());
+            }
+            let rest: Vec<&[String]> = tails.into_iter().filter(|t| !t.is_empty()).collect();
+            match rest.len() {
+                0 => {}
+                1 if !wrap => out.push(format!("{f}.{}", rest[0].join("."))),
+                _ => out.push(format!("{f}.{{{}}}", entries(rest, wrap).join(", "))),
+            }
+        }
+        out
+    }
+    if paths.is_empty() {
+        return String::new();
+    }
+    match style % 4 {
+        1 | 3 => entries(paths.iter().map(|p| p.as_slice()).collect(), style % 4 == 3).iter().map(|e| format!("import {e};")).collect::<Vec<_>>().join(" "),
+        2 if paths.len() >= 2 => format!("import {{{}}};", paths.iter().map(|p| p.join(".")).collect::<Vec<_>>().join(", ")),
+        _ => paths.iter().map(|p| format!("import {};", p.join("."))).collect::<Vec<_>>().join(" "),
+    }
+}
 const CONST_NAMES: [&str; 2] = ["K", "L"];
 
 #[derive(Clone, Debug)]
@@ -69,6 +116,8 @@ struct Probe {
 }
 
 struct Tree {
+    /// how the imports of one scope are written (see `import_text`)
+    list_style: u8,
     mods: Vec<Module>,
     probes: Vec<Probe>,
 }
@@ -126,7 +175,7 @@ fn gen_ref(c: &mut Choices, mods: &[Module], from: usize, want_fn: Option<bool>)
         })
         .collect();
     if cands.is_empty() || c.chance(30) {
-        let item = if want_fn.unwrap_or(true) { FN_NAMES[c.below(3)] } else { CONST_NAMES[c.below(2)] };
+        let item = if want_fn.unwrap_or(true) { FN_NAMES[c.below(FN_NAMES.len())] } else { CONST_NAMES[c.below(2)] };
         return gen_path(c, item);
     }
     let (mut tm, mut item) = cands[c.below(cands.len())].clone();
@@ -349,7 +398,56 @@ fn decode(ctl: &[u8]) -> Tree {
         let decoy_shape = c.byte();
         probes.push(Probe { module, block_imports, import_after_use, local, path, nested_use, sibling_imports, shape, decoy, decoy_shape });
     }
-    Tree { mods, probes }
+    // import bundles: several items of one module and of one of its children imported into one
+    // scope by absolute paths, so that list syntax has something to nest (`import pkg.a.{b.{f, g}, K};`)
+    for m in 0..mods.len() {
+        if !c.chance(50) {
+            continue;
+        }
+        let with_child: Vec<usize> = (1..mods.len()).filter(|t| !mods[*t].children.is_empty()).collect();
+        if with_child.is_empty() {
+            continue;
+        }
+        let tm = with_child[c.below(with_child.len())];
+        let ch = mods[tm].children[c.below(mods[tm].children.len())];
+        let abs = |t: usize| -> Vec<String> {
+            let mut v = Vec::new();
+            let mut cur = Some(t);
+            while let Some(x) = cur {
+                v.push(if x == 0 { "pkg".to_string() } else { mods[x].name.clone() });
+                cur = mods[x].parent;
+            }
+            v.reverse();
+            v
+        };
+        let mut cands: Vec<Vec<String>> = Vec::new();
+        for t in [ch, tm] {
+            for k in mods[t].fns.keys().chain(mods[t].consts.keys()) {
+                let mut p = abs(t);
+                p.push(k.clone());
+                cands.push(p);
+            }
+        }
+        // the child itself, written after its items: `a.{b.{f, g}, b}` is not a list the trie makes, so
+        // it comes as an entry of its own
+        cands.push(abs(ch));
+        let mut k = 0;
+        while k < cands.len() {
+            let j = k + c.below(cands.len() - k);
+            cands.swap(k, j);
+            k += 1;
+        }
+        for p in cands.into_iter().take(2 + c.below(3)) {
+            let alias = p.last().unwrap().clone();
+            // a module does not import a name it declares itself or has imported already
+            let declared = mods[m].fns.contains_key(&alias) || mods[m].consts.contains_key(&alias) || mods[m].children.iter().any(|x| mods[*x].name == alias);
+            if !declared && !mods[m].imports.iter().any(|q| q.last() == Some(&alias)) {
+                mods[m].imports.push(p);
+            }
+        }
+    }
+    let list_style = c.byte();
+    Tree { list_style, mods, probes }
 }
 
 // ------------------------------------------------------------------ the independent resolver
@@ -501,11 +599,13 @@ impl Tree {
 fn render_module(t: &Tree, m: usize) -> String {
     let md = &t.mods[m];
     let mut s = String::new();
-    for imp in &md.imports {
-        let _ = writeln!(s, "import {};", imp.join("."));
-    }
+    let _ = writeln!(s, "{}", import_text(&md.imports.iter().collect::<Vec<_>>(), t.list_style));
     for (f, tag) in &md.fns {
-        let _ = writeln!(s, "fn {f}() -> i32 {{ {tag} }}");
+        if is_fm(f) {
+            let _ = writeln!(s, "filtermap {f}() {{ accept {tag} }}");
+        } else {
+            let _ = writeln!(s, "fn {f}() -> i32 {{ {tag} }}");
+        }
     }
     for (k, v) in &md.consts {
         let _ = writeln!(s, "const {k}: i32 = {v};");
@@ -515,9 +615,9 @@ fn render_module(t: &Tree, m: usize) -> String {
             continue;
         }
         let is_fn = FN_NAMES.contains(&p.path.last().unwrap().as_str());
-        let use_expr = if is_fn { format!("{}()", p.path.join(".")) } else { p.path.join(".") };
+        let use_expr = if is_fn { call_text(&p.path) } else { p.path.join(".") };
         let _ = writeln!(s, "fn probe_{i}() -> i32 {{");
-        let imports_at = |d: usize| -> String { p.block_imports.iter().filter(|(bd, _)| *bd == d).map(|(_, q)| format!("import {};", q.join("."))).collect::<Vec<_>>().join(" ") };
+        let imports_at = |d: usize| -> String { import_text(&p.block_imports.iter().filter(|(bd, _)| *bd == d).map(|(_, q)| q).collect::<Vec<_>>(), t.list_style / 4) };
         if let Some((n, v)) = &p.local {
             let _ = writeln!(s, "    let {n} = {v};");
         }
@@ -698,6 +798,26 @@ fn write_disk(t: &Tree, root: &PathBuf) -> std::io::Result<()> {
         }
         std::fs::write(root.join("pkg"), "fn f() -> i32 { 996 }\n")?;
         std::fs::write(root.join("a.roto.bak"), "fn f() -> i32 { 995 }\n")?;
+    }
+    if salt % 4 != 1 {
+        // directories that are not modules (no mod.roto in them), in every directory of the tree;
+        // enough of them that some come before and some after the module files in any directory order
+        let mut dirs = vec![root.clone()];
+        for m in 1..t.mods.len() {
+            let md = &t.mods[m];
+            if !md.children.is_empty() || md.as_dir {
+                dirs.push(t.module_path(m).iter().fold(root.clone(), |p, s| p.join(s)));
+            }
+        }
+        for d in dirs {
+            for n in [".git", "assets", "0docs", "zz_data", "m_notes", "b.d"] {
+                let sd = d.join(n);
+                if !sd.exists() {
+                    std::fs::create_dir_all(&sd)?;
+                    std::fs::write(sd.join("f.roto"), "fn f() -> i32 { 993 }\nfn g() -> i32 { 992 }\n")?;
+                }
+            }
+        }
     }
     Ok(())
 }
@@ -886,6 +1006,17 @@ impl WorkerState for W {
                         let mut path = t.module_path(m);
                         path.push(f.clone());
                         let name = path.join(".");
+                        if is_fm(f) {
+                            match pkg.get_function::<fn() -> roto::Verdict<i32, ()>>(&name) {
+                                Ok(h) => {
+                                    if h.call() != roto::Verdict::Accept(*tag) {
+                                        return fail("get_function-wrong-item", format!("get_function(\"{name}\") returned the filtermap with another tag"));
+                                    }
+                                }
+                                Err(e) => return fail("get_function-by-path", format!("{name}: {e}")),
+                            }
+                            continue;
+                        }
                         match pkg.get_function::<fn() -> i32>(&name) {
                             Ok(h) => {
                                 if h.call() != *tag {
